@@ -600,5 +600,36 @@ func systematicRules(kind string) []ruleCase {
 			}
 		}
 	}
+	// epoch rules: an absent epoch is epoch 0; the epoch dominates everything else; epochs compare as numbers
+	epochRules := func(sep string, versions []string, lower, higher string) {
+		for _, v := range versions {
+			add(eq(v, "0"+sep+v, "epoch: an absent epoch equals epoch 0"))
+			add(eq("0"+sep+v, "00"+sep+v, "epoch: leading zeros in the epoch are irrelevant"))
+			add(eq(v, "000"+sep+v, "epoch: an absent epoch equals epoch 000"))
+			add(lt(v, "1"+sep+v, "epoch: epoch 1 is above no epoch"))
+			add(lt("0"+sep+v, "1"+sep+v, "epoch: epoch 1 is above epoch 0"))
+			add(lt("1"+sep+v, "2"+sep+v, "epoch: numeric order"))
+			add(lt("9"+sep+v, "10"+sep+v, "epoch: numeric order, not lexical"))
+			add(lt("99999999999999999999"+sep+v, "100000000000000000000"+sep+v, "epoch: numeric order for long numbers"))
+			add(eq("1"+sep+v, "01"+sep+v, "epoch: leading zeros in the epoch are irrelevant"))
+		}
+		add(lt(higher, "1"+sep+lower, "epoch: dominates the version (no epoch vs 1)"))
+		add(lt("0"+sep+higher, "1"+sep+lower, "epoch: dominates the version (0 vs 1)"))
+		add(lt("1"+sep+higher, "2"+sep+lower, "epoch: dominates the version (1 vs 2)"))
+		add(lt(lower, "0"+sep+higher, "epoch 0 does not change the order (absent vs 0)"))
+		add(lt("0"+sep+lower, higher, "epoch 0 does not change the order (0 vs absent)"))
+	}
+	switch kind {
+	case "redhat":
+		epochRules(":", []string{"1.0-1", "1.0", "2.4.1-3.el8", "1.0~rc1-1"}, "1.0-1", "9.9-9")
+		add(lt("1.0-1", "0:1.0-2", "epoch: absent epoch equals 0, the release decides"))
+		add(lt("0:1.0-1", "1.0-2", "epoch: absent epoch equals 0, the release decides"))
+	case "debian":
+		epochRules(":", []string{"1.0-1", "1.0", "2.4.1-3ubuntu1", "1.0~rc1-1"}, "1.0-1", "9.9-9")
+		add(lt("1.0-1", "0:1.0-2", "epoch: absent epoch equals 0, the revision decides"))
+		add(lt("0:1.0-1", "1.0-2", "epoch: absent epoch equals 0, the revision decides"))
+	case "pypi":
+		epochRules("!", []string{"1.0", "1.0.post1", "2.4.1rc1", "1.0.dev3"}, "1.0", "2024.12")
+	}
 	return out
 }
